@@ -55,6 +55,14 @@ def run(model: RepoModel, rep, tier: str):
                 continue
             if role == "src":
                 bad, unk, rel = classify(roots)
+                cn_ = call_name(s.call) or ""
+                if cn_ in ("os.link", "os.symlink", "os.rename", "os.replace", "shutil.move") and "input" in roots:
+                    what_ = "links" if cn_ in ("os.link", "os.symlink") else "moves"
+                    rep.violation("C18.R3", key, file, line,
+                                  f"{s.where} {what_} an input file (`{norm(e)}`, roots {sorted(roots)}) with {cn_}: "
+                                  + ("the workspace entry and the input are then ONE file, so any later write to the workspace copy (a second input that maps to "
+                                     "the same workspace name, a preprocessor) changes the input" if what_ == "links" else "the input disappears from where the user keeps it"))
+                    continue
                 # a copy source may be an input, the repository's own mock code, or the workspace (backup)
                 allowed = {r for r in roots if r in ("input", "workspace", "repo") or r.startswith("config:")}
                 rest = roots - allowed
